@@ -10,7 +10,11 @@ CASES = [
     ('vw.deny_b', 'a', True), ('vw.nosuch', 'a', False), ('vw.Kmeth.meth', 'a', True),
     ('meth', 'a', False), ('vw.Kinit', 'b', True), ('vw.Kinit', 'nope', False),
     ('Kmeth.meth', 'b', True), ('vw.plain', 'b', True), ('vw.kwo', 'c', False),
+    # a function behind a signature-agnostic functools.wraps decorator: its OWN signature counts
+    ('vw.wrapped', 'a', True), ('vw.wrapped', 'bogus', False), ('vw.wrapped_deny', 'b', False),
+    ('vw.wrapped_deny', 'zzz', False),
 ]
+NCASE = len(CASES)
 PATHS = ['string key', 'tuple key', 'scoped string key', 'parse_config flat', 'block member',
          'finalize hook', 'scoped block member']
 PRE = [('', 'vw.dflt', 'a'), ('s', 'vw.dflt', 'b'), ('', 'vw.allow_a', 'a'),
@@ -27,10 +31,10 @@ def cfg_copy():
 def c11_step(case: int, path: int, p0: bool, p1: bool, p2: bool, p3: bool,
              v0: int, v1: int, v2: int, v3: int, nv: int) -> bool:
   """
-  pre: 0 <= case < 15 and 0 <= path < 7
+  pre: 0 <= case < 19 and 0 <= path < 7
   """
   world.fresh()
-  case = rt.pick(case, 15)
+  case = rt.pick(case, NCASE)
   path = rt.pick(path, 7)
   sel, param, ok_expected = CASES[case]
   pres = [rt.flag(p0), rt.flag(p1), rt.flag(p2), rt.flag(p3)]
@@ -120,12 +124,12 @@ HARNESSES = {
         smoke=[dict(case=4, path=4, p0=True, p1=True, p2=False, p3=True, v0=1, v1=2, v2=3, v3=4, nv=9),
                dict(case=8, path=5, p0=True, p1=False, p2=True, p3=False, v0=1, v1=2, v2=3, v3=4, nv=9),
                dict(case=9, path=3, p0=False, p1=False, p2=False, p3=False, v0=1, v1=2, v2=3, v3=4, nv=9)],
-        tiers={'quick': dict(split=dict(case=list(range(15)), path=list(range(7))),
+        tiers={'quick': dict(split=dict(case=list(range(19)), path=list(range(7))),
                              fixed=dict(p2=False, p3=False), budget_s=100),
-               'thorough': dict(split=dict(case=list(range(15)), path=list(range(7))), budget_s=300)},
+               'thorough': dict(split=dict(case=list(range(19)), path=list(range(7))), budget_s=300)},
         bounds='inductive step: arbitrary subset of 4 existing bindings (2 in quick) with symbolic values, then '
-               'one attempted binding: 15 (configurable, parameter) cases (valid, unknown parameter, **kwargs '
+               'one attempted binding: 19 (configurable, parameter) cases (valid, unknown parameter, **kwargs '
                'catch-all, allow-listed / not, deny-listed / not, unknown configurable, method through class, '
-               'bare method name, class) x 7 API paths (string key, tuple key, scoped key, parse_config flat, '
+               'bare method name, class, function behind a functools.wraps decorator with and without a denylist) x 7 API paths (string key, tuple key, scoped key, parse_config flat, '
                'block member, scoped block member, finalize hook); values: all ints'),
 }
